@@ -23,7 +23,7 @@ type c13Case struct {
 	Svc     string      `json:"svc"` // root | app (strip) | raw (no strip) | fwd | fwdapp | tls
 	TLS     bool        `json:"tls"`
 	Method  string      `json:"method"`
-	Path    string      `json:"path"` // as sent, including the service prefix
+	Path    string      `json:"path"`  // as sent, including the service prefix
 	Query   string      `json:"query"` // including the leading ? when present
 	Hdr     [][2]string `json:"headers"`
 	Body    int         `json:"body"`
